@@ -140,6 +140,13 @@ def total_variation(case, ctx):
         ctx.equal(ctx.lib(pk.determine_peaks_only_delta_series, x2), d, "delta series after a constant shift of %r" % shift)
         ctx.equal(ctx.lib(pk.determine_pseudo_cyclic_peak_only_series, x2), c, "pseudo-cyclic series after a constant shift of %r" % shift)
         ctx.cls("shifted")
+    if how == "int" and np.max(np.abs(a)) < 2 ** 40:
+        # raw counts on a large integer baseline: the rebase is exact in integer arithmetic, so the output is identical
+        for big in (2 ** 55 + 7, -(2 ** 58) + 3):
+            x3 = np.array(a, dtype=np.int64) + np.int64(big)
+            ctx.equal(ctx.lib(pk.determine_peaks_only_delta_series, x3), d, "delta series after an integer shift of %d" % big)
+            ctx.equal(ctx.lib(pk.determine_pseudo_cyclic_peak_only_series, x3), c, "pseudo-cyclic series after an integer shift of %d" % big)
+        ctx.cls("huge-int-offset")
 
 
 # ---------------------------------------------------------------------------
